@@ -31,6 +31,11 @@ CHECKS = {
    note="Per-node observations are taken from the same implementation; only their relation to the tree result is judged here (C04 judges the outcomes themselves).",
    technique="trace validation with a relational TLA+ judge (TraceValidate.tla) evaluated by TLC on recorded tree validations",
    design="4/C05"),
+ "C06": dict(
+   text="Codec.tla specifies the 8-slot layout (slot order included), the legacy 4-slot layout, the converter's Upgrade and the inverse maps; MC_Codec checks on all 758 trees of <= 3 nodes over 8 node variants that the format loses nothing (De(Ser(t)) = t, stable re-serialisation, legacy view, Upgrade(SerL(t)) loads as the legacy view). spec->code: each small tree is built, saved by both codecs and the converter (compiled from utils/convert.py), and the emitted text compared slot by slot and key-order-exactly with TLC's documents, then loaded. code->spec: seeded trees of 1-40 nodes with arbitrary Unicode (lone surrogates, control characters, empty strings) in every text field; save/load/re-save, legacy save/load, upgrade/load events judged by TraceCodec.tla (layout, loaded tree, parent links, registration, identical text).",
+   note="Text identity is decided through interned atoms. The precondition (child prefixes include the parent's) is established through the API. Default (None-keyed) namespaces are outside the quantifier.",
+   technique="TLA+ codec specification model-checked by TLC (MC_Codec) and replayed; recorded codec events trace-validated by TLC (TraceCodec.tla)",
+   design="4/C06"),
  "C09": dict(
    text="TLC explores every forest over 4 nodes x 2 names with every edit (append, insert at every index, remove, clear, replace, both shift modes and directions, and the failing variants) and checks the spec's own invariants/action properties; the harness replays every labelled transition, every state's full query table, all paths to depth 3/4 and seeded walks on real Node objects, and TraceForest.tla judges long random histories over 12-20 nodes recorded from the real API. Exhaustive within the bound; beyond it, sampled.",
    note="Trusted: TLC, the projection pi (public properties only), Python list semantics for building states. Assumes the usage constraint of the statement (one parent at a time, no cycles, in-range insert index). Stored parent links of unlisted nodes are not judged.",
